@@ -1,0 +1,28 @@
+//go:build verif
+
+// Contracts for GoVC (comments only; see /verif/DESIGN.md).
+
+package frugal
+
+// Legacy JIT controls: no effect, fixed results.
+
+//@ func Pretouch(vt any, options []Option) (err error)
+//@   modifies nothing
+//@   ensures c17_nil: err == nil
+
+//@ func NoJIT(v bool)
+//@   modifies nothing
+
+//@ func WithMaxInlineDepth(depth int) (o Option)
+//@   modifies nothing
+//@ func WithMaxInlineILSize(size int) (o Option)
+//@   modifies nothing
+//@ func WithMaxPretouchDepth(depth int) (o Option)
+//@   modifies nothing
+
+//@ func SetMaxInlineDepth(depth int) (r int)
+//@   modifies nothing
+//@   ensures c17_echo: r == depth
+//@ func SetMaxInlineILSize(size int) (r int)
+//@   modifies nothing
+//@   ensures c17_echo: r == size
